@@ -13,7 +13,8 @@ CHECKS = {'C10': {'level': 'other',
          'text': 'ScratchSlot.__init__ is proved to keep a requested id in [0,256) and flag it reserved, reject other ids, and hand out automatic ids >= 256 from a strictly increasing counter. The '
                  'slot assignment is proved, for every finite set of slots, to reject duplicate requested ids and more than 256 slots and to number the others injectively inside [0,256) around the '
                  'requested ids. Programs with 1..300 simultaneously live variables and every access path (direct, dynamic, by reference, forwarded by reference, dynamic by reference) must keep '
-                 'every value, use the requested slots, and be rejected beyond the limits (bounded).',
+                 'every value, use the requested slots, and be rejected beyond the limits (bounded). Bounded additions: full slot occupancy (requested + automatic slots around 256, all 256 ids '
+                 'requested), duplicate requested ids for every placement of the two variables over routines.',
          'note': 'the write-back loop of assignScratchSlotsToSubroutines and collectScratchSlots are bounded only; lemmas/Pigeonhole.lean is re-checked on every run.',
          'design_ref': 'DESIGN.md 5/C10'},
  'C11': {'level': 'other',
@@ -24,7 +25,8 @@ CHECKS = {'C10': {'level': 'other',
          'text': 'Proved: the scratch-slot numbering fills the gaps left by requested ids in ascending id order, for every finite set of slots. Audited: every iteration over a set on the compile '
                  'path is either ordered by sorted() or classified order-insensitive with a stated reason. Bounded: the same sources (generated programs, an ABI subroutine program, routers incl. one '
                  'whose first compilation fails) are compiled in separate processes under different PYTHONHASHSEED values, after successful / failing / mixed unrelated activity, in reversed order, '
-                 'and twice in one process (same object and rebuilt source); all digests must be equal.',
+                 'and twice in one process (same object and rebuilt source); all digests must be equal. Bounded additions: a type_of / has_return query between two compilations of the same object; '
+                 'one OptimizeOptions object serving two unrelated programs; sibling subroutines across the 9/10 counter boundary.',
          'note': 'no reads-frame / restore-on-all-exits contracts for class-level state (ScratchSlot.nextSlotId, SubroutineDefinition.nextSubroutineId, memoised declarations): history independence '
                  'is bounded only. Known finding: repeated Router.compile_program renumbers slots.',
          'design_ref': 'DESIGN.md 5/C11, 10.3'},
@@ -36,7 +38,8 @@ CHECKS = {'C10': {'level': 'other',
          'text': 'Proved for every component list: createConstantBlocks emits the int block then the byte block, then exactly one component per input component; a constant load becomes '
                  'pushint/pushbytes of the value extract*Value returns, or intc/bytec whose index is inside the emitted block (<= 256 entries) and whose entry equals that value (in its 0x-hex / '
                  'template-name text for bytes); everything else is passed through unchanged; no KeyError / ValueError / IndexError on any path. Bounded: the literal decoding itself (every '
-                 'byte-literal syntax, enums, templates) against an independent decoder, and run-time equality of the two programs on generated and many-constant programs.',
+                 'byte-literal syntax, enums, templates) against an independent decoder, and run-time equality of the two programs on generated and many-constant programs. Bounded additions: all 13 '
+                 'named integer constants, literals whose texts coincide across kinds, template constants next to literals.',
          'note': 'the extract*Value functions are trusted callee summaries in the proof (their decoding is the bounded part); sorted() and the two comprehensions are summarised under a syntactic '
                  "guard; the frequency rule ('top four or >= 128') is not part of the property and is not specified.",
          'design_ref': 'DESIGN.md 5/C12, 10.3'},
@@ -49,7 +52,8 @@ CHECKS = {'C10': {'level': 'other',
                  '_base64vlq_decode returns exactly the values from any canonical text, so decode(encode(vs)) == vs; the two alphabet tables are inverse (64 cases); for every map, each segment '
                  "to_json hands to the encoder decodes to its entry's generated column, source index, source line, source column and name index. Bounded: for generated programs the TEAL with a "
                  'source map equals the TEAL without; the map has one entry per line in order pointing at existing file lines; the Revision-3 JSON decodes (real decoder and an independent one) to '
-                 'the same associations; annotated TEAL minus comments equals the plain TEAL; constants written on known lines of a generated module are attributed to those lines.',
+                 'the same associations; annotated TEAL minus comments equals the plain TEAL; constants written on known lines of a generated module are attributed to those lines. Bounded additions: '
+                 'Router.compile with / without source maps, repeated literals with assembled constants, named constants that are the first thing their statement pushes.',
          'note': 'from_json, the string plumbing of the JSON, frame selection (CPython frame introspection) and annotation are bounded stand-ins only; identity of TEAL with/without the map is '
                  'asserted by the compiler itself and re-checked here on generated programs.',
          'design_ref': 'DESIGN.md 5/C15, 10.3'},
@@ -60,7 +64,9 @@ CHECKS = {'C10': {'level': 'other',
          'text': 'Proved for every block graph: a call of validateSlots returns errors naming every load that is bad in its own state, puts every successor state into the visited set, and every '
                  'state it adds to the visited set is itself explored (its bad loads reported, its successors visited); with the induction on path length (meta-lemma M17) the root call therefore '
                  'reports every load reachable along a syntactic path without a prior store. Bounded: every statement shape of nesting depth <= 2 over store / load / If / If-Else / Seq / While / '
-                 'Cond / Break / Continue / Return is compiled and must be rejected, with an error naming the offending load, exactly when an independent analysis finds such a path.',
+                 'Cond / Break / Continue / Return is compiled and must be rejected, with an error naming the offending load, exactly when an independent analysis finds such a path. The contract '
+                 "includes a frame clause (the caller's slot set is not modified); bounded additions: arms that store and leave the routine, a variable whose index is taken, optimiser-interplay "
+                 'shapes.',
          'note': "termination of the recursion and the caller's 'raise if non-empty' step are not under contract (the latter is exercised by the bounded stand-in); M17 is a three-line induction "
                  'stated in DESIGN.md, not mechanised.',
          'design_ref': 'DESIGN.md 5/C17, 10.3'},
@@ -70,7 +76,8 @@ CHECKS = {'C10': {'level': 'other',
                       'concatenations and the other literal syntaxes on the spec AVM',
          'text': 'For each code point the literal produced by escapeStr parses back (independent TEAL grammar) to exactly its UTF-8 bytes, is printable ASCII and stays one token even when followed '
                  'by a comment. Int.__init__ is proved to accept exactly the integers in [0, 2^64) and to store them. Strings over an adversarial alphabet, raw bytes, base16/32/64 forms, malformed '
-                 'literals, addresses and method signatures are compiled and executed on the spec AVM (bounded).',
+                 'literals, addresses and method signatures are compiled and executed on the spec AVM (bounded). Also: non-ASCII method signatures hashed verbatim; Int accepts exactly python ints '
+                 '(contract).',
          'note': 'trusted: TEAL literal grammar of spec/avm.py, python base64/hashlib, algosdk address codec; codec homomorphism assumed (bounded-validated).',
          'design_ref': 'DESIGN.md 5/C13'},
  'C18': {'level': 'other',
@@ -104,7 +111,8 @@ CHECKS = {'C10': {'level': 'other',
                  'argument i is decoded from ApplicationArgs[i+1]; with more than 15, arguments 15.. come from one tuple in ApplicationArgs[15], de-tupled in order; transaction argument j of t is '
                  'the group transaction at GroupIndex - (t - j), its type enforced unless generic. Bounded: generated signatures (0..20 parameters, all kinds) executed with real encoded arguments '
                  '(binding, reference indices, result logged once as 0x151f7c75 ++ encoding before approve); registration histories (plain / overriding name / decorator / described / refused) '
-                 'against the contract JSON and the selectors the program dispatches on.',
+                 'against the contract JSON and the selectors the program dispatches on. E: the decode glue of the real __decode_constructions_and_args for every arity; bounded: registration '
+                 'histories, references inside the packed tail, repeated transaction types.',
          'note': 'no pyvc contract: the glue builds lists by comprehensions over ABI value objects; the arity enumeration is exhaustive only within its stated bound.',
          'design_ref': 'DESIGN.md 5/C09, 10.4'},
  'C14': {'level': 'other',
@@ -115,7 +123,8 @@ CHECKS = {'C10': {'level': 'other',
                  '[applications]; [assets]; application_args; extra fields), the reference arguments are appended to their foreign array in order and passed as the one-byte index ARC-4 prescribes '
                  '(accounts and applications position + 1, assets position), plain arguments follow the selector of the given signature in order (an Expr as is, an ABI value as its encoding); only '
                  "TealInputError / TealTypeError (or algosdk's encoding error beyond 255 references) are raised. Bounded: generated signatures incl. repeated reference kinds and caller-supplied "
-                 'foreign arrays executed on the spec AVM; type rejections probed. Known finding: no tuple packing beyond 15 arguments.',
+                 'foreign arrays executed on the spec AVM; type rejections probed. Known finding: no tuple packing beyond 15 arguments. Bounded additions: reference values (abi.Account / Asset / '
+                 'Application) forwarded to the inner call, caller-supplied foreign arrays, signature spellings; E: a raw uint64 expression is refused for every plain parameter type.',
          'note': 'the constructors (SetField, Seq, Bytes, MethodSignature, uint8 encode) and the type-spec queries are callee summaries; run-time behaviour is bounded only.',
          'design_ref': 'DESIGN.md 5/C14, 10.3'},
  'C19': {'level': 'other',
@@ -148,7 +157,8 @@ CHECKS = {'C10': {'level': 'other',
                  "and otherwise returns decode_bit at the element's ARC-4 bit position (bool), a decode between the uint16 head at the element's head offset and the head of the first following "
                  'dynamic element (dynamic; open-ended iff none follows), or a decode of the window [offset, offset + static length) (static; the abbreviated forms only where they denote that '
                  'window). Bounded: for generated type shapes and values every tuple / array position (constant and computed index), get(), length() and the decode-encode round trip are compared '
-                 'with the reference encoding of the component; out-of-range indices must fail. Three classes of non-failing out-of-range array accesses are known findings.',
+                 'with the reference encoding of the component; out-of-range indices must fail. Three classes of non-failing out-of-range array accesses are known findings. Bounded additions: '
+                 'named-tuple fields read by name while several named-tuple types that reuse field names at other positions are alive.',
          'note': 'array element access (ArrayElement, computed indices), the scalar decoders and the Expr constructors are bounded only; the contract treats decode()/decode_bit()/ExtractUint16/Int '
                  'as pure record constructors.',
          'design_ref': 'DESIGN.md 5/C07, 10.3'},
@@ -158,7 +168,8 @@ CHECKS = {'C10': {'level': 'other',
                       'independent langspec + bounded structural validation of emitted TEAL',
          'text': "The version and mode gates are proved for every component list: compilation passes them iff every op exists at the version and in the mode. Every row of pyteal's opcode, "
                  'transaction-field and global-field tables equals the independently written AVM table (name, first version, modes, type, array-ness). Pragma, label uniqueness, defined targets, '
-                 'placeholders, terminators and immediate ranges are validated on the emitted text of generated programs and hand-written probes (bounded).',
+                 'placeholders, terminators and immediate ranges are validated on the emitted text of generated programs and hand-written probes (bounded). Bounded additions: immediate-boundary '
+                 'probes for 21 constructs, routine-ending shapes, text legality with 255..300 repeated constants.',
          'note': 'trusted: spec/langspec.py (hand-written from the AVM spec), spec/tealcheck.py. flattenBlocks / resolveSubroutines label contracts not yet discharged deductively.',
          'design_ref': 'DESIGN.md 5/C04'},
  'C03': {'level': 'other',
@@ -193,7 +204,9 @@ CHECKS = {'C10': {'level': 'other',
          'technique': 'exception-freedom contract on flattenBlocks (pyvc/z3) + bounded stand-ins: exhaustive small-scope enumeration of degenerate control-flow shapes and block graphs, generated '
                       'programs, size probes',
          'text': 'All statement shapes of nesting depth <= 2 over pop / empty Seq / If / While / For / Cond / Break / Continue, as first statement and after a statement, at several versions with the '
-                 'optimiser on and off, must compile to TEAL (and behave as described) or raise a PyTeal error; plus generated programs and long / deeply nested probes. Exploration, not proof.',
+                 'optimiser on and off, must compile to TEAL (and behave as described) or raise a PyTeal error; plus generated programs and long / deeply nested probes. Exploration, not proof. '
+                 'Bounded additions: shared Expr objects, template constants with assembled constants, full slot occupancy, 63 builder-misuse probes (compilation of whatever the constructors accept '
+                 'gives TEAL or a PyTeal error).',
          'note': 'only flattenBlocks is under contract; NormalizeBlocks / addIncoming / validateTree / sortBlocks are explored exhaustively on small graphs (bounded). Three defects found here were '
                  'repaired (fix: commits); recursion depth on long programs is a known finding.',
          'design_ref': 'DESIGN.md 5/C20'},
@@ -204,7 +217,8 @@ CHECKS = {'C10': {'level': 'other',
          'text': 'Per construct (operators, Seq, If/ElseIf, Cond, While, For with Break/Continue exits, Assert, Return/Approve/Reject, scratch access, MultiValue, Comment/Nonce/Pragma, '
                  'SubroutineCall) the fragment built by the real method is proved equal to the documented meaning over uninterpreted child semantics: same effects in the same order, each operand '
                  'once, only the selected branch / iteration. The control domain the method can observe (child types, has_return, pending exits, version, mode) is enumerated. flattenBlocks and '
-                 'sortBlocks are under their own pyvc contracts (every block list / graph); NormalizeBlocks is covered by the bounded stand-in only.',
+                 'sortBlocks are under their own pyvc contracts (every block list / graph); NormalizeBlocks is covered by the bounded stand-in only. Also decided by execution (E): the 20 Python '
+                 'operators overloaded on Expr build the documented expression; bounded: loops whose arm / body is nothing but a Comment, a fixed witness of the recorded optimiser finding.',
          'note': 'trusted: spec terms (documented meaning), langspec arities, meaning of control ops; meta-lemma L-frag; parametricity of constructs in their children. Whole-pipeline check is a '
                  'bounded stand-in (generated programs on the spec AVM). flattenBlocks, sortBlocks and the linking constructs are under pyvc contracts (10.3). Known finding O3.4 (slot optimiser, '
                  'outside these contracts) is reported as KNOWN-FINDING on a fixed witness.',
@@ -215,7 +229,8 @@ CHECKS = {'C10': {'level': 'other',
          'text': 'The per-call-site contract of the spill/restore sequences is proved for every argument count, every number of local slots, v4 (dig) and v5+ (cover/uncover) and every return shape '
                  'of the callee: in front of callsub the stack is base++spilled++args, afterwards it is base++result and every local slot holds its pre-call value. The rest of the calling convention '
                  '(SubroutineCall, SubroutineEval.evaluate, frame ops) is currently covered only by the bounded stand-in (generated recursive programs executed on the spec AVM against direct '
-                 'evaluation).',
+                 'evaluation). Bounded additions: recursion scenarios for every caller / callee kind pair (plain value / plain none / ABI output / ABI void), self recursion, three kinds of local '
+                 '(incl. one that is also passed by reference), versions 6..10 x 9 option settings.',
          'note': 'trusted: spec/symavm.py, callee summary (pops n, pushes r, may clobber scratch), sorted() contract, slot ids distinct and <256 (C10), meta-lemma L-call; pyvc encoding; z3. Bounded '
                  'part never counted as proved. Recursion scenarios (every caller/callee kind pair, self recursion) are bounded. Known finding O3.4 (slot optimiser: a frame-pointer routine returns a '
                  'leftover value) is reported as KNOWN-FINDING on a fixed witness.',
